@@ -217,6 +217,43 @@ func (f *Frame) modelCall(b *ssa.BasicBlock, st *State, fn *ssa.Function, fname 
 			c.axiom(r, eq(r, and(eqs...)))
 		}
 		return Val{t: r, typ: rt}, true
+	case "(*regexp.Regexp).FindAllStringSubmatchIndex":
+		// Shape of the result (package documentation): one row per match, in increasing,
+		// non-overlapping order; a row holds pairs (start, end): pair 0 is the whole match with
+		// 0 <= start <= end <= len(input); every later pair is (-1, -1) for a group that did not
+		// participate or lies inside [0, len(input)] with start <= end.
+		{
+			ekS, ekI := "E:[]int", "E:int"
+			tr.regKey(ekS, []Sx{"Int", it.isort()}, "Slice")
+			tr.regKey(ekI, []Sx{"Int", it.isort()}, c.sortOf(types.Typ[types.Int]))
+			m := f.freshResult(st, rt, "rxmatrix")
+			ES, EI := tr.memGet(st, ekS), tr.memGet(st, ekI)
+			n := sx("slen", args[1].t)
+			row := func(j Sx) Sx { return sx("select", sx("select", ES, sx("sl_arr", m.t)), j) }
+			at := func(r, t Sx) Sx { return sx("select", sx("select", EI, sx("sl_arr", r)), t) }
+			inRows := func(j Sx) Sx {
+				return and(it.le(I64, sx("sl_off", m.t), j), it.lt(I64, j, it.addNW(sx("sl_off", m.t), sx("sl_len", m.t))))
+			}
+			r := row("j")
+			wf := and(it.le(I64, it.iconst(0), sx("sl_off", r)), it.le(I64, it.iconst(2), sx("sl_len", r)), it.le(I64, sx("sl_len", r), sx("sl_cap", r)),
+				it.le(I64, sx("sl_cap", r), it.iconst(1<<40)), it.le(I64, sx("sl_off", r), it.iconst(1<<40)),
+				sx("<", "0", sx("sl_arr", r)), sx("<", sx("sl_arr", r), tr.allocTerm(st)),
+				eq(sx("mod", sx("sl_len", r), "2"), "0"),
+				it.le(I64, it.iconst(0), at(r, sx("sl_off", r))), it.le(I64, at(r, sx("sl_off", r)), at(r, it.addNW(sx("sl_off", r), it.iconst(1)))),
+				it.le(I64, at(r, it.addNW(sx("sl_off", r), it.iconst(1))), n))
+			if it.mode == ModeInt {
+				c.axiom(m.t, fmt.Sprintf("(forall ((j Int)) (! (=> %s %s) :pattern (%s)))", inRows("j"), wf, r))
+				pairOK := or(and(eq(at(r, "t"), it.iconst(-1)), eq(at(r, it.addNW("t", it.iconst(1))), it.iconst(-1))),
+					and(it.le(I64, it.iconst(0), at(r, "t")), it.le(I64, at(r, "t"), at(r, it.addNW("t", it.iconst(1)))), it.le(I64, at(r, it.addNW("t", it.iconst(1))), n)))
+				inRow := and(it.le(I64, sx("sl_off", r), "t"), it.lt(I64, "t", it.addNW(sx("sl_off", r), sx("sl_len", r))), eq(sx("mod", sx("-", "t", sx("sl_off", r)), "2"), "0"))
+				c.axiom(m.t, fmt.Sprintf("(forall ((j Int) (t Int)) (! (=> (and %s %s) %s) :pattern (%s)))", inRows("j"), inRow, pairOK, at(r, "t")))
+				prev := row(sx("-", "j", "1"))
+				c.axiom(m.t, fmt.Sprintf("(forall ((j Int)) (! (=> (and %s %s) %s) :pattern (%s)))", inRows("j"), it.lt(I64, sx("sl_off", m.t), "j"),
+					it.le(I64, at(prev, it.addNW(sx("sl_off", prev), it.iconst(1))), at(r, sx("sl_off", r))), r))
+				c.note("regexp.FindAllStringSubmatchIndex: shape of the result as documented (rows of (start,end) pairs inside the input, matches in increasing non-overlapping order) is assumed (trusted model of package regexp)")
+			}
+			return m, true
+		}
 	case "(*bufio.Reader).ReadString":
 		// (piece, err): err == nil iff piece ends in the delimiter (package documentation); the
 		// ghost counter X:consumed of the reader grows by len(piece)
